@@ -872,3 +872,43 @@ def keep_self_contained(ctx, op, failures, examine=4, want=2):
     else:
         ctx.note(f"{op.name}: none of the {min(len(fs), examine)} smallest failing histories fails alone in a fresh interpreter - the "
                  "replays depend on what ran before them in the process")
+
+
+def drop_not_self_contained(ctx, history_ops=("history", "tag_history"), examine=3):
+    """When a history already shows (self-contained) that state survives between calls, single-input failures that do
+    *not* fail alone in a fresh interpreter are consequences of what earlier cases of this run left behind: their input
+    is not a replay.  They are dropped in favour of the history; operations whose smallest failures do fail alone keep
+    all of them.  Without a failing history nothing is dropped."""
+    if not any(f.kind == "property" and f.op in history_ops for f in ctx.failures):
+        return
+    ops = P().OPS
+    by_op = {}
+    for f in ctx.failures:
+        if f.kind == "property" and f.op not in history_ops and f.op in ops:
+            by_op.setdefault(f.op, []).append(f)
+    for name, fs in by_op.items():
+        op = ops[name]
+        fs.sort(key=lambda f: f.size())
+        alone = False
+        try:
+            for f in fs[:examine]:
+                io = fresh_output(name, f.inp)
+                msg = op.holds(ctx, f.inp, io) if op.holds is not None else None
+                if not msg:
+                    mo = ctx.model(op.model_op, op.to_model(f.inp))
+                    if op.compare is not None:
+                        msg = op.compare(f.inp, io, mo)
+                    else:
+                        a = {k: v for k, v in io.items() if k != "trace"} if isinstance(io, dict) else io
+                        msg = None if a == mo else "implementation and model disagree"
+                if msg:
+                    alone = True
+                    break
+        except Exception as e:  # noqa: BLE001
+            ctx.note("fresh-process confirmation failed: %r" % (e,))
+            continue
+        if not alone:
+            drop = {id(f) for f in fs}
+            ctx.failures[:] = [f for f in ctx.failures if id(f) not in drop]
+            ctx.note(f"{name}: {len(fs)} failing inputs do not fail alone in a fresh interpreter (state left behind by earlier cases of "
+                     "this run, shown self-contained by the failing history): not listed as replays")
